@@ -20,12 +20,12 @@ func init() {
 		ID:              "C16",
 		HangIsViolation: true,
 		Technique:       "exhaustive enumeration of tag texts (sequences of literal / placeholder segments incl. defaults, nesting, repetition) x configurations (values that themselves contain placeholders, incl. self- and mutually-referential ones) x tag kinds, each a real start; reference evaluator for acyclic cases, termination decided by a Configure.Get-call budget (no clock)",
-		Rule:            "tag = <=2 (thorough <=3) segments over {literal, ${a}, ${b}, ${x} absent, ${x:d}, ${a:d}, ${m:d} empty map, ${l:d} empty list, ${${k}} nested key, ${x:${a}} nested default, ${x:${x:e}}}; configuration a in {absent, v, ${b}, ${a}, p${b}q, ${a}x, 7, empty string, ${c}-${a}, ${c}${b}, ${a${c}}} with c a plain value x b in {absent, w, ${a}, ${b}} x k in {a, b}; observed through a custom tag (substituted text seen by a recording processor), a value tag bound to a string field and a by-name wire tag; non-trivial = tag with >=2 placeholders, nesting, or a configured value containing a placeholder. Families added in later rounds (look-ups inside Init, retries after an abandoned attempt, user extension points at every Order, several containers, odd names / types / values) are listed per part in this file and described in MANIFEST.json (level_claimed.text) and DESIGN §7",
+		Rule:            "tag = <=2 (thorough <=3) segments over {literal, ${a}, ${b}, ${x} absent, ${x:d}, ${a:d}, ${m:d} empty map, ${l:d} empty list, ${${k}} nested key, ${x:${a}} nested default, ${x:${x:e}}}; configuration a in {absent, v, ${b}, ${a}, p${b}q, ${a}x, 7, empty string, ${c}-${a}, ${c}${b}, ${a${c}}, #{1+2}, n#{'v'+'w'} (an expression text: the tag must then behave as one written with that text - a second start is the reference)} with c a plain value x b in {absent, w, ${a}, ${b}} x k in {a, b}; observed through a custom tag (substituted text seen by a recording processor), a value tag bound to a string field and a by-name wire tag; non-trivial = tag with >=2 placeholders, nesting, or a configured value containing a placeholder. Families added in later rounds (look-ups inside Init, retries after an abandoned attempt, user extension points at every Order, several containers, odd names / types / values) are listed per part in this file and described in MANIFEST.json (level_claimed.text) and DESIGN §7",
 		Assumptions: []string{
 			"values with unbalanced ${ fragments are outside the family; number-like defaults belong to C17",
 			"cyclic or self-growing references must end in an error or an empty value within 5000 Configure.Get calls per start",
 		},
-		Parts: []Part{{Name: "placeholders", Run: c16Run, QuickS: 90, ThoroughS: 1200}},
+		Parts: []Part{{Name: "placeholders", Run: c16Run, QuickS: 240, ThoroughS: 1500}},
 	})
 }
 
@@ -134,7 +134,7 @@ func c16Eval(text string, cfg map[string]any, stack []string) (string, *c16RefEr
 			d := 0
 			j := i + 2
 			for ; j < len(text); j++ {
-				if strings.HasPrefix(text[j:], "${") {
+				if strings.HasPrefix(text[j:], "${") || strings.HasPrefix(text[j:], "#{") {
 					d++
 					j++
 					continue
@@ -202,6 +202,13 @@ func c16Gen(c *core.Ctx) func(yield func(c16Case) bool) {
 				tags = append(tags, t)
 			}
 		}
+		// an expression as a placeholder's default (written in the tag)
+		for _, s := range []string{"${x:#{1+2}}", "${a:#{1+2}}", "${x:n#{'v'+'w'}}", "${${k}:#{1+2}}"} {
+			add(s)
+			add("p", s)
+			add(s, "${b}")
+			add("${a}", s)
+		}
 		for _, s1 := range segs {
 			add(s1)
 			for _, s2 := range segs {
@@ -212,7 +219,7 @@ func c16Gen(c *core.Ctx) func(yield func(c16Case) bool) {
 			}
 		}
 		// "" is a configured value, not an absent key; ${c} always resolves to plain text
-		aVals := []any{nil, "v", "${b}", "${a}", "p${b}q", "${a}x", 7, "", "${c}-${a}", "${c}${b}", "${a${c}}"}
+		aVals := []any{nil, "v", "${b}", "${a}", "p${b}q", "${a}x", 7, "", "${c}-${a}", "${c}${b}", "${a${c}}", "#{1+2}", "n#{'v'+'w'}"}
 		bVals := []any{nil, "w", "${a}", "${b}"}
 		for _, kind := range []string{"custom", "value", "wire"} {
 			for _, av := range aVals {
@@ -220,6 +227,9 @@ func c16Gen(c *core.Ctx) func(yield func(c16Case) bool) {
 					for _, kv := range []string{"a", "b"} {
 						for _, tag := range tags {
 							if !c.Thorough() && kind != "custom" && len(tagSegs[tag]) > 2 {
+								continue
+							}
+							if s, ok := av.(string); ok && !c.Thorough() && strings.Contains(s, "#{") && len(tagSegs[tag]) > 2 {
 								continue
 							}
 							if !yield(c16Case{Tag: tag, A: av, B: bv, K: kv, Kind: kind}) {
@@ -254,53 +264,84 @@ func c16Run(c *core.Ctx) {
 			cfg["b"] = norm(cs.B)
 		}
 		want, rerr := c16Eval(cs.Tag, cfg, nil)
-		h := &c16Holder{}
-		sc := &c16Scanner{}
-		rec := &c16Rec{}
-		switch cs.Kind {
-		case "custom":
-			sc.NodeType = "custom"
-		case "value":
-			sc.NodeType = cd.PropertyTypeConfiguration
-		case "wire":
-			sc.NodeType = cd.PropertyTypeComponent
-		}
-		sc.ExtractHandler = func(m *cd.Meta, f *cd.Field) (string, string, bool) {
-			if _, ok := m.Raw.(*c16Holder); !ok {
+		var h *c16Holder
+		var rec *c16Rec
+		var cb *c16Binder
+		var mb *c16MapBinder
+		targets := map[string]*scen.N{}
+		start := func(tagText string) *scen.StartObs {
+			h = &c16Holder{}
+			sc := &c16Scanner{}
+			rec = &c16Rec{}
+			switch cs.Kind {
+			case "custom":
+				sc.NodeType = "custom"
+			case "value":
+				sc.NodeType = cd.PropertyTypeConfiguration
+			case "wire":
+				sc.NodeType = cd.PropertyTypeComponent
+			}
+			sc.ExtractHandler = func(m *cd.Meta, f *cd.Field) (string, string, bool) {
+				if _, ok := m.Raw.(*c16Holder); !ok {
+					return "", "", false
+				}
+				switch {
+				case cs.Kind == "custom" && f.StructField.Name == "F":
+					return "mytag", tagText, true
+				case cs.Kind == "value" && f.StructField.Name == "V":
+					return "value", tagText + ",required=false", true
+				case cs.Kind == "wire" && f.StructField.Name == "W":
+					return "wire", tagText + ",required=false", true
+				}
 				return "", "", false
 			}
-			switch {
-			case cs.Kind == "custom" && f.StructField.Name == "F":
-				return "mytag", cs.Tag, true
-			case cs.Kind == "value" && f.StructField.Name == "V":
-				return "value", cs.Tag + ",required=false", true
-			case cs.Kind == "wire" && f.StructField.Name == "W":
-				return "wire", cs.Tag + ",required=false", true
+			vb := binder.NewViperBinder("yaml")
+			for k, v := range cfg {
+				vb.Set(k, v)
 			}
-			return "", "", false
+			cb = &c16Binder{ViperBinder: vb, budget: 5000}
+			mb = &c16MapBinder{m: cfg, budget: 5000}
+			var theBinder configure.Binder = cb
+			if cs.MapBinder {
+				theBinder = mb
+			}
+			comps := []any{h, sc, rec}
+			// by-name targets for the wire kind: components named after the possible results
+			if cs.Kind == "wire" {
+				for _, nm := range []string{"v", "w", "p", "d", "e", "pwq", "vw", "wv", "vv", "ww", "3", "nvw"} {
+					n := &scen.N{Nm: nm}
+					scen.SetRT(n, &scen.RT{})
+					targets[nm] = n
+					comps = append(comps, n)
+				}
+			}
+			return scen.Start(scen.StartSpec{Ch: envx.Fixed("", nil), Comps: comps, Opts: []app.SettingOption{app.SetConfigBinder(theBinder), app.SetConfigLoader()}})
 		}
-		vb := binder.NewViperBinder("yaml")
-		for k, v := range cfg {
-			vb.Set(k, v)
+		boundOf := func() string {
+			switch cs.Kind {
+			case "custom":
+				return rec.tagVal
+			case "value":
+				return h.V
+			}
+			if h.W != nil {
+				return h.W.ID()
+			}
+			return "-"
 		}
-		cb := &c16Binder{ViperBinder: vb, budget: 5000}
-		mb := &c16MapBinder{m: cfg, budget: 5000}
-		var theBinder configure.Binder = cb
-		if cs.MapBinder {
-			theBinder = mb
-		}
-		comps := []any{h, sc, rec}
-		// by-name targets for the wire kind: components named after the possible results
-		targets := map[string]*scen.N{}
-		if cs.Kind == "wire" {
-			for _, nm := range []string{"v", "w", "p", "d", "e", "pwq", "vw", "wv", "vv", "ww"} {
-				n := &scen.N{Nm: nm}
-				scen.SetRT(n, &scen.RT{})
-				targets[nm] = n
-				comps = append(comps, n)
+		// the replacement text carries an expression: "the tag is then processed as if it had been
+		// written with the replacement text" - a second start with exactly that text in the tag is
+		// the reference for what the first one must bind
+		viaExpr, litBound, litOK := false, "", false
+		if rerr == nil && strings.Contains(want, "#{") {
+			viaExpr = true
+			lo := start(want)
+			litBound, litOK = boundOf(), lo.OK()
+			if lo.Panic != "" || lo.Abort != "" {
+				viaExpr = false
 			}
 		}
-		o := scen.Start(scen.StartSpec{Ch: envx.Fixed("", nil), Comps: comps, Opts: []app.SettingOption{app.SetConfigBinder(theBinder), app.SetConfigLoader()}})
+		o := start(cs.Tag)
 		cb.n += mb.n
 		c.S.Evaluations++
 		c.S.Programs++
@@ -345,6 +386,15 @@ func c16Run(c *core.Ctx) {
 				return
 			}
 			c.Outcome(cs.Kind + "/cyclic-rejected")
+			return
+		}
+		if viaExpr {
+			if got := boundOf(); o.OK() != litOK || (litOK && got != litBound) {
+				c.Outcome(cs.Kind + "/expression-mismatch")
+				c.Report(key, "not-as-written", fmt.Sprintf("%s: the replacement text is %q; a tag written with that text binds %q (started: %v), this tag binds %q (started: %v, err=%v)", desc, want, litBound, litOK, got, o.OK(), scen.FirstLine(o.Err)), cs)
+				return
+			}
+			c.Outcome(cs.Kind + "/as-written-with-the-replacement-text")
 			return
 		}
 		switch cs.Kind {
